@@ -45,7 +45,8 @@ fn leaf_pair_maps() -> Vec<Ty> {
     v
 }
 
-fn make_case(types: &[Ty], position: usize, builtin_imports: bool, label: String) -> Case {
+fn make_case(types: &[Ty], position: usize, header_variant: usize, label: String) -> Case {
+    let builtin_imports = header_variant == 1;
     let mut item = if position == 2 {
         Item::new(ItemKind::Parcelable, "Obs")
     } else {
@@ -67,6 +68,14 @@ fn make_case(types: &[Ty], position: usize, builtin_imports: bool, label: String
         for i in ["android.os.ParcelableHolder", "android.os.IBinder", "android.os.ParcelFileDescriptor"] {
             header.imports.push(Import::new(i));
         }
+    }
+    if header_variant == 2 {
+        // project items / forward declarations named like built-ins take precedence over them
+        header.imports.push(Import::new("lib.IBinder"));
+        header.imports.push(Import::new("lib.ParcelFileDescriptor"));
+        header.decls.push(Decl::new("ParcelableHolder"));
+        files.push(ProjFile::from_doc("lib-ibinder", Document::new("lib", Item::new(ItemKind::Interface, "IBinder"))));
+        files.push(ProjFile::from_doc("lib-pfd", Document::new("lib", Item::new(ItemKind::Enum, "ParcelFileDescriptor"))));
     }
     files.push(ProjFile::from_doc("obs", header));
     let oi = files.len() - 1;
@@ -123,18 +132,18 @@ pub fn run(tier: Tier, seed: u64) -> i32 {
     let nf = (types.len() + per - 1) / per;
     super::drive(
         &stats,
-        nf * 4 * 2,
+        nf * 4 * 3,
         1,
         |i| {
-            let bi = i % 2 == 1;
-            let i = i / 2;
+            let bi = i % 3;
+            let i = i / 3;
             let pos = i % 4;
             let f = i / 4;
             let chunk = &types[f * per..((f + 1) * per).min(types.len())];
             for t in chunk {
                 stats.nontrivial(fnv(&format!("{}@{pos}", t.text())));
             }
-            let c = make_case(chunk, pos, bi, format!("packed types {}..{} position {} builtin_imports {bi}", f * per, f * per + chunk.len(), pos));
+            let c = make_case(chunk, pos, bi, format!("packed types {}..{} position {} header variant {bi}", f * per, f * per + chunk.len(), pos));
             if i % 211 == 0 {
                 stats.sample(json!({"label": c.label, "types": chunk.iter().take(6).map(|t| t.text()).collect::<Vec<_>>()}));
             }
@@ -154,7 +163,7 @@ pub fn run(tier: Tier, seed: u64) -> i32 {
             let pos = i % 4;
             let t = &small[(i / 4) * small.len() / nsmall];
             stats.nontrivial(fnv(&format!("{}@{pos}u", t.text())));
-            Some(make_case(std::slice::from_ref(t), pos, i % 8 >= 4, format!("unpacked `{}` position {pos}", t.text())))
+            Some(make_case(std::slice::from_ref(t), pos, (i / 4) % 3, format!("unpacked `{}` position {pos}", t.text())))
         },
         check_case,
     );
@@ -163,7 +172,7 @@ pub fn run(tier: Tier, seed: u64) -> i32 {
     let all = classes.iter().all(|c| stats.outcome_count(&format!("class:{c}")) > 0);
     finish(
         &stats,
-        "every container built by chains over {T[], List<T>, Map<String,T>, Map<T,String>} up to the stated depth over 17 leaf categories (reached through real resolution), plus all Map<k,v> over leaf pairs, each in return / argument / field / constant position, with and without the file importing the built-ins it uses; inside the extent of every type the diagnostics are compared with the statement's element tables applied to every container node; distinct_nontrivial counts distinct (type, position) pairs",
+        "every container built by chains over {T[], List<T>, Map<String,T>, Map<T,String>} up to the stated depth over 17 leaf categories (reached through real resolution), plus all Map<k,v> over leaf pairs, each in return / argument / field / constant position, with three headers (plain; importing the built-ins it uses; importing project items / declaring a parcelable named like built-ins); inside the extent of every type the diagnostics are compared with the statement's element tables applied to every container node; distinct_nontrivial counts distinct (type, position) pairs",
         &[
             "element tables transcribed from the statement; an unresolved name as map key is left open (statement contradictory)",
             "the comparison covers every validation diagnostic located inside a type's extent (unknown-type Errors and missing-direction Errors included, from the same reference)",
